@@ -309,7 +309,13 @@ def check_hier(spec):
             k: (build(v) if isinstance(v, list) else v) for k, v in vals.items()
             if k in allf})
     try:
-        a, a2, b = inst(spec["vals_a"]), inst(spec["vals_a"]), inst(spec["vals_b"])
+        usertypes.NOINIT_VALUES["serial"] = 1
+        a, a2 = inst(spec["vals_a"]), inst(spec["vals_a"])
+        usertypes.NOINIT_VALUES["serial"] = spec.get("serial_b", 1)
+        b = inst(spec["vals_b"])
+        usertypes.NOINIT_VALUES["serial"] = 1
+        if any(lv.get("noinit") for lv in spec["hier"]["levels"][:i + 1]):
+            res.label("has-init-false-field")
     except Exception as exc:
         return res.fail("instantiation-raised:" + exc_site(exc),
                         f"{cls.__name__}: {type(exc).__name__}: {exc}")
@@ -352,7 +358,8 @@ def check_hier(spec):
     if kind == "B":
         pass  # handled below like a legacy class without fields of its own
     if kind == "D":
-        _try_mutations(res, a, list(allf), "decorated-user-class")
+        extra_f = [f for lv in spec["hier"]["levels"][:i + 1] for f in lv.get("noinit", [])]
+        _try_mutations(res, a, list(allf) + extra_f, "decorated-user-class")
         res.compared()
         try:
             a.brand_new_attribute = 1
@@ -674,7 +681,14 @@ def hier_case(draw):
         nf = 0 if kind == "B" else draw(st.integers(0, 2))
         flds = [f for f in draw(st.permutations(FIELD_POOL)) if f not in used][:nf]
         used.update(flds)
-        levels.append({"kind": kind, "fields": flds, "mapper_method": None})
+        lvl = {"kind": kind, "fields": flds, "mapper_method": None}
+        if kind == "D" and draw(st.integers(0, 4)) == 0:
+            lvl["noinit"] = ["serial"] if "serial" not in used else []
+            used.add("serial")
+        if kind == "D" and root == "Expression" and not levels and draw(
+                st.integers(0, 4)) == 0:
+            lvl["init"] = False
+        levels.append(lvl)
     hier = {"root": root, "levels": levels,
             "tag": draw(st.sampled_from(("MyNode", "HTTPNode2D", "ABCFoo", "Tagged")))}
     allf = list(usertypes.ROOTS[root][1]) + [f for lv in levels for f in lv["fields"]]
@@ -699,7 +713,8 @@ def hier_case(draw):
         elif f != "parameters":
             vb[f] = ["Var", "changed"]
     return {"hier": hier, "level": draw(st.integers(0, depth - 1)), "vals_a": va,
-            "vals_b": vb, "hash_first": draw(st.booleans())}
+            "vals_b": vb, "hash_first": draw(st.booleans()),
+            "serial_b": draw(st.sampled_from((1, 1, 2)))}
 
 
 OPS = ("hash", "eq", "ne", "lookup", "copy", "deepcopy", "pickle", "identity",
